@@ -1,10 +1,10 @@
 (* Proofs/RoutesConv.v — C13: facts about to_toml_value / to_toml_table (what toml::from_str::<toml::Value>
    and str::parse::<toml::Table> build from a parsed tree), and the twin SERIALIZERS: on a value whose
-   serialized tree has no date-time and no private key, Value::try_from builds exactly the
+   serialized tree has no private key (date-times included), Value::try_from builds exactly the
    toml::Value the serialized text parses to. *)
 From TV Require Import Base.Prelude Base.Utf8 Model.Datetime Model.DatetimeStd Model.WriteFloat Model.SerNum
   Spec.DatetimeSpec Spec.SerdeData Model.Ser Model.De Model.SerdeRoutes
-  Proofs.NumbersRT_Ser Proofs.SerdeRTBase Proofs.SerdeRTEq Proofs.SerdeRTLeaf Proofs.SerdeRTLists Proofs.SerdeRT
+  Proofs.DatetimeEq Proofs.NumbersRT_Ser Proofs.SerdeRTBase Proofs.SerdeRTEq Proofs.SerdeRTLeaf Proofs.SerdeRTLists Proofs.SerdeRT
   Proofs.SerdeRTErr Proofs.SerdeRTBTree Proofs.SerdeRTTv.
 
 Definition conv_entries (es : list (bytes * tomlval)) : result (list (bytes * tomlval)) :=
@@ -186,9 +186,12 @@ Proof.
   - intros v x Hty Hser Hf. destruct w; destruct v; simpl in Hser; try discriminate Hser; injection Hser as <-; eexists; split; reflexivity.
   - intros v x Hty Hser Hf. destruct v; simpl in Hser; try discriminate Hser. injection Hser as <-. eexists; split; reflexivity.
   - intros v x Hty Hser Hf. destruct v; simpl in Hser; try discriminate Hser. injection Hser as <-. eexists; split; reflexivity.
-  - (* a date-time: excluded by tunnel_free *)
-    intros v x Hty Hser Hf. destruct v; simpl in Hser; try discriminate Hser. unfold ser_datetime in Hser.
-    apply rmap_ok in Hser as (d' & _ & ->). simpl in Hf. discriminate Hf.
+  - (* a date-time: the tunnel on both sides; the text Display printed parses back (C12) *)
+    intros v x Hty Hser Hf. destruct v; simpl in Hser; try discriminate Hser. simpl in Hty.
+    apply andb_true_iff in Hty as [Hr _]. rewrite (ser_datetime_ok d x Hr Hser).
+    exists (VDatetime d). split.
+    + simpl. unfold de_dt_str. rewrite (print_parse_std d Hr). reflexivity.
+    + simpl. unfold ser_datetime, dt_field_str. rewrite (print_parse_std d Hr). reflexivity.
   - intros v x Hty Hser Hf. destruct v; simpl in Hser; discriminate Hser.
   - intros v x Hty Hser Hf. destruct v; simpl in Hser; discriminate Hser.
   - intros v x Hty Hser Hf. destruct v; try (simpl in Hser; discriminate Hser).
@@ -223,7 +226,7 @@ Proof.
     apply negb_true_iff in Hpriv. rewrite sv_struct, (private_not_dt n Hpriv) in Hser.
     apply rmap_ok in Hser as (ps & Hps & ->).
     destruct (tf_struct_fields fs H vs ps Hnd Hvs Hps Hf) as (qs & Tq & C).
-    exists (btable_of qs). split; [exact C|]. rewrite ts_struct, Tq. reflexivity.
+    exists (btable_of qs). split; [exact C|]. rewrite (ts_struct n fs vs Hpriv), Tq. reflexivity.
   - intros v x Hty Hser Hf. destruct v; try (simpl in Hser; discriminate Hser).
     rewrite sv_newtype in Hser. rewrite ht_newtype in Hty. rewrite ts_newtype. apply IHt; assumption.
   - intros v x Hty Hser Hf. destruct v; try (simpl in Hser; discriminate Hser).
